@@ -59,8 +59,9 @@ The code is modelled **as it is** (default features: one process-wide arena, no 
       controlled executor's ready list in spawn order (`St.tasks`; woken, or entry gone ⇒ woken by
       `Inner::drop`).
     - `Effect::watch(dep, handler, immediate)` (`EffKind.watch imm hb`): the dependency function is
-      the body; the handler is called **after and outside** `owner.with_cleanup(..)`
-      (`afterRun`/`runHandler`: no owner pushed, no observer) when `immediate || !first_run`.
+      the body; the handler is called after `owner.with_cleanup(..)`, under `owner.with(..)`, without
+      an observer (`afterRun`/`runHandler`) when `immediate || !first_run`.  (`runHandlerOld`: the
+      code before the repair of F-C08-2 called it outside the owner; kept for the regression witness.)
     - `RenderEffect::new` (`EffKind.render`, `newRender`): `Owner::new()`, first run at once under
       `owner.with` (fresh owner), then the task; **not** in the arena — alive while the handle is
       (`EffRec.held`); re-run on `update_if_necessary()` only.
@@ -414,7 +415,7 @@ structure MemoRec where
 /-- the constructors that re-run a body under an owner of their own:
 `plain` = `Effect::new` / `new_sync` / `new_isomorphic` (the same task loop, `spawn_local` vs `spawn`);
 `watch imm hb` = `Effect::watch(dep, handler, imm)` — the dependency function is the body, `hb` is the
-handler's body, which the loop calls **outside** `owner.with_cleanup(..)`;
+handler's body, which the loop calls after `owner.with_cleanup(..)`, under `owner.with(..)`;
 `render` = `RenderEffect::new`: first run synchronous (`owner.with`), not stored in the arena — it
 lives as long as its handle;  `async` = `AsyncDerived::new` whose future is ready at once: first
 run synchronous (`owner.with_cleanup`), arena item created afterwards, sources never cleared -/
@@ -469,8 +470,12 @@ structure St extends Core where
   obs : Option Sub := none
   acc : Int := 0
   memoDepth : Nat := 0
-  /-- ghost: a `watch` handler created an arena value / registered a cleanup while no owner was current -/
+  /-- ghost: a `watch` handler created an arena value / registered a cleanup / looked up a context
+  while no `Owner::with` frame was active at all -/
   watchHit : Bool := false
+  /-- configuration, never changed by any op: run `Effect::watch` handlers as the code did before
+  the repair of F-C08-2 (`runHandlerOld`); only the regression witness sets it -/
+  legacyWatch : Bool := false
   /-- the harness's owner handles (`none` = dropped) -/
   hOwners : List (Option Nat) := []
   bodies : List (List BOp) := []
@@ -682,30 +687,45 @@ def exec : Nat → St → BOp → St
 
 def execBOp (st : St) (op : BOp) : St := exec (2 * st.bodies.length + 3) st op
 
-/-- a token of a `watch` handler: reads are untracked, and what it creates lands on whatever owner
-is current where the task is polled -/
+/-- a token of a `watch` handler (reads are untracked).  `watchHit` records that something was
+created for the handler while no owner frame was active -/
 def execHandlerTok (st : St) : BOp → St
   | .read s => readSig st s
   | .cleanup tag =>
-    let hit := (currentOwner st.toCore).isNone
+    let hit := st.cur.isEmpty
     { (st.lift (regCleanup · tag false)) with watchHit := st.watchHit || hit }
   | .item v =>
-    let hit := (currentOwner st.toCore).isNone
+    let hit := st.cur.isEmpty
     { (st.lift (newStored · v)) with watchHit := st.watchHit || hit }
   | .sig v =>
-    let hit := (currentOwner st.toCore).isNone
+    let hit := st.cur.isEmpty
     { (newSignal st v) with watchHit := st.watchHit || hit }
   | .use ty =>
-    let hit := (currentOwner st.toCore).isNone
+    let hit := st.cur.isEmpty
     { (st.lift (useCtx · ty)) with watchHit := st.watchHit || hit }
   | _ => st
 
-def runHandler (st : St) (e : Nat) (hb : Nat) : St :=
+/-- before the repair of F-C08-2: the handler was called outside the effect's owner, on whatever
+owner was current where the task is polled -/
+def runHandlerOld (st : St) (e : Nat) (hb : Nat) : St :=
   let saved := (st.obs, st.acc)
   let st := st.lift (logEv · (Ev.h e))
   let st := { st with obs := none, acc := 0 }
   let st := (bodyOf st hb).foldl execHandlerTok st
   { st with obs := saved.1, acc := saved.2 }
+
+/-- `owner.with(|| handler(..))`: the handler runs under the effect's owner `o` (no observer); what
+it creates belongs to the current run and is released by the next `with_cleanup` -/
+def runHandlerNew (st : St) (e : Nat) (o : Nat) (hb : Nat) : St :=
+  let saved := (st.obs, st.acc)
+  let st := st.lift fun c => logEv (pushCur c o) (Ev.h e)
+  let st := { st with obs := none, acc := 0 }
+  let st := (bodyOf st hb).foldl execHandlerTok st
+  let st := st.lift (popCur · 1)
+  { st with obs := saved.1, acc := saved.2 }
+
+def runHandler (st : St) (e : Nat) (o : Nat) (hb : Nat) : St :=
+  if st.legacyWatch then runHandlerOld st e hb else runHandlerNew st e o hb
 
 /-- the effect's task has seen its channel closed: it returns, dropping its `Owner` -/
 def endTask (st : St) (e : Nat) : St :=
@@ -724,10 +744,11 @@ def prepRun (st : St) (e : Nat) (er : EffRec) : St :=
               sources := if isAsync then er.sources else [] }
   { st with effs := st.effs.set e er1 }
 
-/-- `Effect::watch`: the handler is called after, and outside, `owner.with_cleanup(..)` -/
+/-- `Effect::watch`: the handler is called after `owner.with_cleanup(dependency_fn)`, under
+`owner.with(..)` -/
 def afterRun (st : St) (e : Nat) (er : EffRec) : St :=
   match er.kind with
-  | .watch imm hb => if imm || !er.firstRun then runHandler st e hb else st
+  | .watch imm hb => if imm || !er.firstRun then runHandler st e er.owner hb else st
   | _ => st
 
 /-- one iteration of the task loop's body -/
